@@ -3,6 +3,7 @@ import copy
 
 from .. import gen
 from ..world import World, payload
+from ..preempt import call_preempted
 from . import common
 
 ID = 'C01'
@@ -10,8 +11,8 @@ LEVEL = 'exploration'
 BUDGET = {'quick': (12000, 80.0), 'thorough': (300000, 1500.0)}
 RULE = ('seeded swarm generation of 2-4 real J1939-21 stacks, 1-8 messages on distinct (SA,DA) pairs submitted within 300 ms; '
         'a run is non-trivial when at least one multi-packet transfer put frames on the bus; distinct = distinct scenario JSON')
-FAULT_COUNTERS = {'application send_pgn from inside the stack\'s own transmission': 'reentrant_submissions', "zero-latency bus: reply handled re-entrantly inside the sender's send call (runs)": 'zero_latency_runs'}
-REQUIRED_PROBES = ['cmdt_msgs', 'bam_msgs', 'zero_latency_runs', 'len_mod7_zero', 'refused_busy_pair', 'accepted_same_pair', 'submitted_from_ack_callback']
+FAULT_COUNTERS = {'application thread parked at a source line inside send_pgn (pre-emption)': 'preempted_calls', 'application send_pgn from inside the stack\'s own transmission': 'reentrant_submissions', "zero-latency bus: reply handled re-entrantly inside the sender's send call (runs)": 'zero_latency_runs'}
+REQUIRED_PROBES = ['cmdt_msgs', 'bam_msgs', 'zero_latency_runs', 'len_mod7_zero', 'refused_busy_pair', 'accepted_same_pair', 'submitted_from_ack_callback', 'preempted_calls', 'shared_buffer_msgs']
 DLL = 'j1939-21'
 
 
@@ -78,6 +79,13 @@ def generate(rng, tier, i):
         if m['len'] > 8 and m['pf'] < 240 and m['ps'] != 255 and rng.random() < 0.12:
             extra.append(dict(m, fill=rng.randrange(1 << 16), len=max(9, gen.len21(rng)), pf=rng.choice([m['pf'], 0xD4]), on_ack_of=idx, same_pair=True))
             m['same_pair'] = True
+    # the application sends one list object twice: the same buffer again, to the same destination, 1.5 s later (the library must not
+    # have changed it)
+    for m in list(msgs):
+        if m['len'] > 8 and m['len'] < 400 and rng.random() < 0.08:
+            m['share'] = True
+            m['same_pair'] = True
+            extra.append(dict(m, at_us=m['at_us'] + 1_500_000))
     scn['msgs_plain'] = [dict(m) for m in msgs]
     msgs += extra
     scn['msgs'] = sorted(msgs, key=lambda m: (m.get('on_ack_of') is not None, m['at_us']))
@@ -89,6 +97,11 @@ def generate(rng, tier, i):
             #  instant are outside the property, which speaks of concurrent submissions on different pairs)
             if m.get('on_ack_of') is None and not m.get('same_pair'):
                 m['on_tx'] = rng.choice([0, 1, 2, 3, 4, 6, 9, rng.randrange(0, 60)])
+    # pre-emption of the application thread inside send_pgn: parked at its k-th library source line for a while
+    if rng.random() < 0.25:
+        plain = [m for m in scn['msgs'] if m.get('on_tx') is None and m.get('on_ack_of') is None]
+        for m in rng.sample(plain, min(len(plain), rng.randint(1, 3))):
+            m['pre'] = {'k': rng.randint(1, 80), 'hold_us': rng.choice([20, 300, 3000, 60000])}
     return scn
 
 
@@ -97,7 +110,7 @@ def execute(scn, keep_log=False, hook=None):
     sim = w.sim
     exp, extra, meta = common.Counter(), common.Counter(), {}
     viol = []
-    stats = {'cmdt_msgs': 0, 'bam_msgs': 0, 'single_msgs': 0, 'zero_latency_runs': int(scn['latency']['kind'] == 'zero'),
+    stats = {'preempted_calls': 0, 'shared_buffer_msgs': 0, 'cmdt_msgs': 0, 'bam_msgs': 0, 'single_msgs': 0, 'zero_latency_runs': int(scn['latency']['kind'] == 'zero'),
              'len_mod7_zero': 0, 'window_255': 0, 'reentrant_submissions': 0, 'refused_busy_pair': 0, 'accepted_same_pair': 0,
              'submitted_from_ack_callback': 0}
     states = set()
@@ -107,7 +120,25 @@ def execute(scn, keep_log=False, hook=None):
     def submit(m):
         st = w.stacks[m['stack']]
         data = payload(m['fill'], m['len'])
-        ok = st.cas[m['ca']].send_pgn(m['dp'], m['pf'], m['ps'], m['prio'], list(data))
+        pre = m.get('pre') if sim.current is None and not held[0] else None
+        if pre:
+            # the application thread is parked at its k-th source line inside send_pgn; job threads and reception run on, further
+            # application-level submissions (nested, from the acknowledgement callback) wait until this call has returned
+            held[0] += 1
+        try:
+            buf = bufs.setdefault((m['fill'], m['len']), list(data)) if m.get('share') else list(data)
+            if m.get('share'):
+                stats['shared_buffer_msgs'] += 1
+            ok, tr = call_preempted(sim, (lambda: st.cas[m['ca']].send_pgn(m['dp'], m['pf'], m['ps'], m['prio'], buf)), pre)
+        finally:
+            if pre:
+                held[0] -= 1
+        if tr is not None and tr.fired:
+            stats['preempted_calls'] += 1
+        if pre:
+            for later in list(deferred):
+                deferred.remove(later)
+                later()
         mode = common.msg_mode(st.cfg, m)
         stats[{'cmdt': 'cmdt_msgs', 'bam': 'bam_msgs', 'single': 'single_msgs'}[mode]] += 1
         if m['len'] > 8 and m['len'] % 7 == 0:
@@ -128,12 +159,15 @@ def execute(scn, keep_log=False, hook=None):
     base = sim.now
     txcount = {}
     nest = [0]
+    held = [0]
+    deferred = []
+    bufs = {}
     pending_on_tx = [m for m in scn['msgs'] if m.get('on_tx') is not None]
 
     def on_tx(fr):
         k = txcount.get(fr.src, 0)
         txcount[fr.src] = k + 1
-        if nest[0]:
+        if nest[0] or held[0]:
             return
         for m in list(pending_on_tx):
             if m['stack'] == fr.src and m['on_tx'] == k:
@@ -156,7 +190,10 @@ def execute(scn, keep_log=False, hook=None):
             if stack == src['stack'] and lid == 'ca%d' % src['ca'] and sa == src['ps'] and pgn == common.rc.sae_pgn(src['dp'], src['pf'], src['ps']):
                 pending_on_ack.remove(m)
                 stats['submitted_from_ack_callback'] += 1
-                submit(m)
+                if held[0]:
+                    deferred.append(lambda m=m: submit(m))
+                else:
+                    submit(m)
     w.delivery_hooks.append(on_delivery)
     for m in scn['msgs']:
         if m.get('on_tx') is None and m.get('on_ack_of') is None:
